@@ -1,8 +1,85 @@
 import Genshi.Wire
+import Genshi.Model.Exec
 namespace Driver.C14
-open Genshi
+open Genshi Genshi.Exec Genshi.Sexp
 
-/-- stub: the model driver for C14 is not built yet -/
-def handle : List Sexp → Option Sexp := fun _ => none
+def cls? : Sexp → Option Cls
+  | .atom "Markup" => some .markup
+  | .atom "Newtext" => some .newtext
+  | .atom "Oldtext" => some .oldtext
+  | _ => none
+
+def src? : Sexp → Option Src
+  | .atom "Str" => some .str
+  | .atom "Bytes" => some .bytes
+  | .atom "File" => some .file
+  | .atom "Stream" => some .stream
+  | _ => none
+
+def req? : Sexp → Option Req
+  | .atom "Dflt" => some .dflt
+  | .atom "Off" => some .off
+  | .atom "On" => some .on
+  | _ => none
+
+def parse? : Sexp → Option Parse
+  | .atom "Same" => some .same
+  | .atom "Xml" => some .xml
+  | .atom "Text" => some .text
+  | _ => none
+
+def plugin? : Sexp → Option Plugin
+  | .atom "Markup" => some .markup
+  | .atom "Text" => some .text
+  | .atom "Newtext" => some .newtext
+  | _ => none
+
+def opt? : Sexp → Option Opt
+  | .list [.atom "Absent"] => some .absent
+  | .list [.atom "None"] => some .none
+  | .list [.atom "Bool", b] => b.toBool?.map .bool
+  | .list [.atom "Int", n] => n.toNat?.map .int
+  | .list [.atom "Str", .str s] => some (.str s)
+  | _ => none
+
+def root? : Sexp → Option Root
+  | .list [.atom "Direct", c, s, own] => do
+      let c ← cls? c; let s ← src? s; let own ← own.toBool?; pure (.direct c s own)
+  | .list [.atom "Load", c, d] => do
+      let c ← cls? c; let d ← d.toBool?; pure (.load c d)
+  | .list [.atom "Pfile", p] => do let p ← plugin? p; pure (.pluginFile p)
+  | .list [.atom "Pstr", p] => do let p ← plugin? p; pure (.pluginString p)
+  | _ => none
+
+def cfg? (t l o ar : Sexp) : Option Config := do
+  let t ← req? t; let l ← req? l; let o ← opt? o; let ar ← ar.toBool?
+  pure ⟨t, l, o, ar⟩
+
+def clsOut : Cls → Sexp
+  | .markup => .atom "markup" | .newtext => .atom "newtext" | .oldtext => .atom "oldtext"
+
+def verdictOut : Verdict → Sexp
+  | .exec => .atom "exec" | .reject => .atom "reject" | .inert => .atom "inert" | .failed => .atom "failed"
+
+def optResOut : OptRes → Sexp
+  | .allow => .atom "allow" | .deny => .atom "deny" | .confError => .atom "confError" | .failed => .atom "failed"
+
+def nodeOut : Option Node → Sexp
+  | none => .atom "none"
+  | some n => .list [clsOut n.cls, verdictOut n.verdict, ofBool n.loaderFlag, ofBool n.autoReload]
+
+/-- every prefix of the include chain, root first -/
+def prefixes (r : Reach) : List Parse → List Reach
+  | [] => [r]
+  | p :: ps => r :: prefixes (.incl r p) ps
+
+def handle : List Sexp → Option Sexp
+  | [.atom "reach", t, l, o, ar, root, .list chain] => do
+      let cfg ← cfg? t l o ar
+      let root ← root? root
+      let chain ← chain.mapM parse?
+      pure (.list ((prefixes (.root root) chain).map fun r => nodeOut (node cfg r)))
+  | [.atom "parseopt", o] => do let o ← opt? o; pure (optResOut (parseOpt o))
+  | _ => none
 
 end Driver.C14
